@@ -6,7 +6,8 @@ import xml.etree.ElementTree as ET
 
 b = json.load(open('/root/.vp/BASELINE.json'))
 out = tempfile.mktemp(suffix='.junit.xml', dir='/dev/shm')
-cmd = b['cmd'].replace('<file>', out)
+repo = sys.argv[1] if len(sys.argv) > 1 else '/repo'
+cmd = b['cmd'].replace('<file>', out).replace('cd /repo', 'cd ' + repo)
 env = dict(os.environ)
 env.pop('CHEMPY_VERIF', None)
 p = subprocess.run(cmd, shell=True, env=env, stdout=subprocess.PIPE, stderr=subprocess.STDOUT)
